@@ -27,6 +27,8 @@ enum Op {
     /// restarting speaker: selection deferral from before the first route
     StartDeferral,
     EndDeferral,
+    /// the observing session comes up now (late-observer model): it starts from a dump of the RIB
+    Attach,
 }
 
 fn op_name(o: &Op) -> String {
@@ -43,6 +45,7 @@ fn op_name(o: &Op) -> String {
         Op::Nh { up } => format!("update_nexthop_validity(N1,{})", if *up { "up" } else { "down" }),
         Op::StartDeferral => "start_deferral".into(),
         Op::EndDeferral => "end_deferral".into(),
+        Op::Attach => "observer_registers".into(),
     }
 }
 
@@ -89,7 +92,8 @@ fn snap(p: &table::Path, with_id: bool) -> (u32, Snap) {
 
 pub(crate) struct Sys {
     tables: TableHandle,
-    obs: mpsc::UnboundedReceiver<ToPeerEvent>,
+    /// None until the observing session registers (late-observer model)
+    obs: Option<mpsc::UnboundedReceiver<ToPeerEvent>>,
     a: Vec<Arc<table::Source>>,
     a_up: bool,
     b: Arc<table::Source>,
@@ -98,6 +102,9 @@ pub(crate) struct Sys {
     nh_down: bool,
     deferring: bool,
     touched: bool,
+    /// a deferral has taken place in this history (kept in the fingerprint: whether the table really
+    /// left the deferral is hidden state that must not be merged away)
+    ever_deferred: bool,
     best: BTreeMap<String, (u32, Snap)>,
     all: BTreeMap<String, Vec<(u32, Snap)>>,
     broken: BTreeSet<String>,
@@ -106,12 +113,13 @@ pub(crate) struct Sys {
 pub(crate) struct TmModel {
     ops: Vec<Op>,
     nets: Vec<packet::Nlri>,
+    late: bool,
 }
 
 impl Model for TmModel {
     type Sys = Sys;
     fn name(&self) -> String {
-        "c06-tablemanager".into()
+        if self.late { "c06-tablemanager-late-observer".into() } else { "c06-tablemanager".into() }
     }
     fn n_ops(&self) -> usize {
         self.ops.len()
@@ -121,7 +129,7 @@ impl Model for TmModel {
     }
     fn init(&self) -> Sys {
         let tables = make_tables(2);
-        let obs = tables.register_peer(addr(99), FnvHashSet::default(), |_| {});
+        let obs = if self.late { None } else { Some(tables.register_peer(addr(99), FnvHashSet::default(), |_| {})) };
         Sys {
             tables,
             obs,
@@ -133,6 +141,7 @@ impl Model for TmModel {
             nh_down: false,
             deferring: false,
             touched: false,
+            ever_deferred: false,
             best: BTreeMap::new(),
             all: BTreeMap::new(),
             broken: BTreeSet::new(),
@@ -201,12 +210,29 @@ impl Model for TmModel {
                 sys.nh_down = !*up;
                 sys.tables.update_nexthop_validity(nh().addr(), *up);
             }
+            Op::Attach => {
+                // (a session that comes up while selection is deferred is not sent the deferred routes:
+                // what it must see then is C11's subject, not modelled here)
+                if sys.obs.is_some() || sys.deferring {
+                    return false;
+                }
+                sys.obs = Some(sys.tables.register_peer(addr(99), FnvHashSet::default(), |_| {}));
+                // what a session is sent when it comes up: the current Loc-RIB
+                sys.best.clear();
+                sys.all.clear();
+                for c in sys.tables.collect_loc_rib_paths(f) {
+                    let key = format!("{}", c.net);
+                    sys.best.insert(key.clone(), snap(c.new_best().unwrap(), false));
+                    sys.all.insert(key, c.current_paths.iter().map(|p| snap(p, true)).collect());
+                }
+            }
             Op::StartDeferral => {
                 if sys.touched || sys.deferring {
                     return false;
                 }
                 sys.tables.start_deferral_families(&[f]);
                 sys.deferring = true;
+                sys.ever_deferred = true;
             }
             Op::EndDeferral => {
                 if !sys.deferring {
@@ -218,7 +244,7 @@ impl Model for TmModel {
         }
         sys.touched = true;
         // fold what the peer channel delivered
-        while let Ok(ev) = sys.obs.try_recv() {
+        while let Some(Ok(ev)) = sys.obs.as_mut().map(|o| o.try_recv()) {
             if let ToPeerEvent::NlriChange(c) = ev {
                 let key = format!("{}", c.net);
                 if c.best_changed {
@@ -259,7 +285,8 @@ impl Model for TmModel {
             }
         }
         // while selection is deferred the notifications are held back; the fold is compared again afterwards
-        if sys.deferring {
+        // (and there is nothing to compare before the observer has registered)
+        if sys.deferring || sys.obs.is_none() {
             want_best = sys.best.clone();
             want_all = sys.all.clone();
         }
@@ -301,14 +328,14 @@ impl Model for TmModel {
         let loc: Vec<String> = sys.tables.collect_loc_rib_paths(Family::IPV4).iter().map(|c| format!("{}:{:?}", c.net, c.current_paths.iter().map(|p| (p.local_path_id, sid(Arc::as_ptr(&p.source) as usize))).collect::<Vec<_>>())).collect();
         let mut loc = loc;
         loc.sort();
-        format!("{:?}|{:?}|{:?}|{:?}|{}|{}|{}|{:?}|{}{}", rib, loc, v(&sys.best), va, sys.a_up, sys.a.len(), sys.nh_down, sys.broken, sys.deferring as u8, sys.touched as u8).into_bytes()
+        format!("{:?}|{:?}|{:?}|{:?}|{}|{}|{}|{:?}|{}{}", rib, loc, v(&sys.best), va, sys.a_up, sys.a.len(), sys.nh_down, sys.broken, sys.deferring as u8, sys.touched as u8 + 2 * sys.obs.is_some() as u8 + 4 * sys.ever_deferred as u8).into_bytes()
     }
     fn observe(&self, sys: &Sys) -> u64 {
         sys.best.len() as u64 * 8 + sys.all.values().map(|v| v.len() as u64).sum::<u64>()
     }
 }
 
-fn model() -> TmModel {
+fn model(late: bool) -> TmModel {
     // two prefixes on different shards
     let probe = TableManager::new(2);
     let mut s0 = None;
@@ -336,24 +363,31 @@ fn model() -> TmModel {
     ops.push(Op::Remove { peer: 1, pfx: 0 });
     ops.push(Op::Insert { peer: 2, pfx: 1, attr: 1 });
     ops.extend([Op::Down { stale: true }, Op::Down { stale: false }, Op::DownLlgrOnly, Op::Reconnect, Op::DropStale, Op::MarkLlgr, Op::DropLlgrStale, Op::Nh { up: false }, Op::Nh { up: true }, Op::StartDeferral, Op::EndDeferral]);
-    TmModel { ops, nets }
+    if late {
+        // a restart during which nobody listens yet, then the first session
+        ops = vec![Op::StartDeferral, Op::EndDeferral, Op::Attach, Op::Insert { peer: 0, pfx: 0, attr: 0 }, Op::Insert { peer: 1, pfx: 1, attr: 1 }, Op::Remove { peer: 0, pfx: 0 }, Op::Down { stale: false }];
+    }
+    TmModel { ops, nets, late }
 }
 
 pub(crate) fn run(replay: Option<&str>) -> Report {
     let mut rep = Report::new("C06", "hd-c06tm");
-    let m = model();
+    let m = model(false);
     if let Some(case) = replay {
+        let late = model(true);
+        let m = if case.contains("late-observer") { &late } else { &m };
         let Some((_, hist)) = bfs::decode_case(case) else {
             rep.machinery_error = Some("bad replay case".into());
             return rep;
         };
-        eprintln!("replay {}", bfs::render(&m, &hist));
-        rep.violations_from(bfs::replay(&m, &hist, true));
+        eprintln!("replay {}", bfs::render(m, &hist));
+        rep.violations_from(bfs::replay(m, &hist, true));
         rep.evaluations = 1;
         return rep;
     }
     let depth = if rep.thorough() { 30 } else { 7 };
     rep.rule = format!("explicit-state BFS depth {depth} over the real TableManager (2 shards; insert/remove from 2 peers + local, session down with stale/drop families, reconnect with a new Source, stale purge, LLGR mark (restale_llgr + drop_no_llgr) and purge, next-hop validity flips) observed through a registered peer channel; fold of the delivered NlriChange stream (best_changed / any_changed consumers) == collect_loc_rib_paths after every step");
     bfs::bfs(&m, &BfsCfg { max_depth: depth, max_secs: if rep.thorough() { 900 } else { 30 }, ..Default::default() }, &mut rep);
+    bfs::bfs(&model(true), &BfsCfg { max_depth: depth.min(12), max_secs: 60, ..Default::default() }, &mut rep);
     rep
 }
